@@ -540,14 +540,14 @@ theorem wantAll_touch (g : Graph) (fs : List Nat) (s0 s : S) (P : Nat → Prop) 
       | bad m => trivial
 
 theorem wantTargets_touch (g : Graph) (a : Args) (ns : List Bytes) (s0 s : S) (P : Nat → Prop)
-    (hP : ∀ n ∈ ns, ∀ t, lookup g n = .ok (some t) → P t)
+    (hP : ∀ n ∈ ns, ∀ t, lookupM g a n = .ok (some t) → P t)
     (h0 : ∀ b, s.st b ≠ .unknown → s0.st b ≠ .unknown ∨ ∃ f, P f ∧ Needs g f b) :
     TouchW g s0 P (wantTargets g a s ns) := by
   induction ns generalizing s with
   | nil => exact h0
   | cons n ns ih =>
     unfold wantTargets
-    have hP' : ∀ n' ∈ ns, ∀ t, lookup g n' = .ok (some t) → P t := fun n' hn' => hP n' (by simp [hn'])
+    have hP' : ∀ n' ∈ ns, ∀ t, lookupM g a n' = .ok (some t) → P t := fun n' hn' => hP n' (by simp [hn'])
     split
     · split
       · exact ih s hP' h0
@@ -575,7 +575,7 @@ theorem wantTargets_touch (g : Graph) (a : Args) (ns : List Bytes) (s0 s : S) (P
 /-- The files an invocation asks for: the manifest; the command-line names that resolve, else the
     `default` statements, else every file. -/
 def Requested (g : Graph) (a : Args) (f : Nat) : Prop :=
-  f = a.manifest ∨ (∃ n ∈ a.targets, lookup g n = .ok (some f)) ∨
+  f = a.manifest ∨ (∃ n ∈ a.targets, lookupM g a n = .ok (some f)) ∨
   (a.targets = [] ∧ f ∈ a.defaults) ∨ (a.targets = [] ∧ a.defaults = [] ∧ f < g.nFiles)
 
 theorem phase2_only_requested {E : Type} {g : Graph} (gok : GraphOK g) (a : Args) (c : Choices E) (s2 : S) (e : E)
